@@ -144,8 +144,8 @@ func (x *Exec) resolveType(env *SpecEnv, t *TypeExpr) *SType {
 }
 
 func (x *Exec) findPkg(env *SpecEnv, name string) *types.Package {
-	if p, ok := x.P.Pkgs[name]; ok {
-		return p.Types
+	if p := x.typesPkg(name); p != nil {
+		return p
 	}
 	if env.pkg != nil {
 		for _, imp := range env.pkg.Imports() {
@@ -154,7 +154,28 @@ func (x *Exec) findPkg(env *SpecEnv, name string) *types.Package {
 			}
 		}
 	}
-	return nil
+	// last resort: any package of that name reachable from the loaded packages (prefer the main module)
+	var best *types.Package
+	seen := map[*types.Package]bool{}
+	var walk func(p *types.Package)
+	walk = func(p *types.Package) {
+		if p == nil || seen[p] {
+			return
+		}
+		seen[p] = true
+		if p.Name() == name {
+			if best == nil || strings.HasPrefix(p.Path(), mainMod) {
+				best = p
+			}
+		}
+		for _, imp := range p.Imports() {
+			walk(imp)
+		}
+	}
+	for _, lp := range x.P.Pkgs {
+		walk(lp.Types)
+	}
+	return best
 }
 
 // qvar creates a bound variable.
@@ -812,8 +833,8 @@ func (x *Exec) ghostFieldDecl(t types.Type, name string) *GhostField {
 
 func (x *Exec) ghostFieldArrays(env *SpecEnv, gf *GhostField) (names []string, leaves []Leaf, T *SType) {
 	penv := *env
-	if p, ok := x.P.Pkgs[gf.Pkg]; ok {
-		penv.pkg = p.Types
+	if p := x.typesPkg(gf.Pkg); p != nil {
+		penv.pkg = p
 	}
 	T = x.resolveType(&penv, gf.T)
 	for _, l := range leavesOfS(T) {
